@@ -143,7 +143,11 @@ class SchemaInstGen(instgen.InstGen):
             prim = t.name if t.kind == "prim" else spec.cp_prim(t.name)
             if prim == "str":
                 ok = [s for s in self.str_pool if ref.admits(s)]
-                return st.sampled_from(ok) if ok else self.s_str()
+                if not ok:
+                    return self.s_str()
+                # strings with non-ASCII characters are the interesting half for pattern translations
+                special = [s for s in ok if not s.isascii()]
+                return st.one_of(st.sampled_from(special), st.sampled_from(ok)) if special else st.sampled_from(ok)
             if prim == "bytearray":
                 lo, hi = ref.len_range()
                 hi2 = hi if hi is not None else lo + 3
